@@ -703,7 +703,7 @@ MUTANTS = [
     Mutant("routing-original-F10", B, "    if isinstance(func.output_name, tuple):\n        # Function produces multiple outputs, make each of them available by its own name\n", "    if isinstance(func.output_name, tuple) and not isinstance(output_name, tuple):\n        # Function produces multiple outputs, make each of them available by its own name\n", ("C10.3-result-keys",), why="original F10"),
     Mutant("sort-original-F09", S, "    return sorted(funcs, key=lambda f: at_least_tuple(f.output_name))\n", "    return sorted(funcs, key=lambda f: f.output_name)\n", ("C10.4-sort-keys",), why="original F09"),
     Mutant("setstate-forgets-resources", PF, "        self.resources = cloudpickle.loads(self.resources) if self.resources is not None else None\n", "", ("C10.5-pickle-state",)),
-    Mutant("foreign-mapspec-write", B, "        self._clear_internal_cache()  # reset cache\n        self._validate()\n        return f\n", "        self._clear_internal_cache()  # reset cache\n        self._validate()\n        f.mapspec = f.mapspec\n        return f\n", ("C10.6-foreign-writes",)),
+    Mutant("foreign-mapspec-write", B, "        f = self._add(f, mapspec)\n        self._validate()\n        return f\n", "        f = self._add(f, mapspec)\n        self._validate()\n        f.mapspec = f.mapspec\n        return f\n", ("C10.6-foreign-writes",)),
     Mutant("add-axis-no-clear", B, "            add_mapspec_axis(p, dims={}, axis=axis, functions=self.sorted_functions)\n        self._clear_internal_cache()\n", "            add_mapspec_axis(p, dims={}, axis=axis, functions=self.sorted_functions)\n", ("C10.6-foreign-writes",)),
     Mutant("add-without-copy", B, "            f: PipeFunc = f.copy(  # type: ignore[no-redef]\n                resources=resources,\n                mapspec=f.mapspec if mapspec is None else _maybe_mapspec(mapspec),\n            )\n", "            f.resources = resources\n", ("C10.7-fresh-objects",)),
     Mutant("scope-prefix-no-dot", PF, "    if name.startswith(f\"{scope}.\"):\n", "    if name.startswith(scope):\n", ("C10.8-details",), why="seeded C10/3"),
